@@ -242,6 +242,14 @@ class Repo:
                 if name.startswith("__"):
                     continue
                 val = consteval.evaluate(self, cls.module, st.value, local_names=dict(cls.members))
+                if isinstance(st.value, ast.Call) and not st.value.args and not st.value.keywords and \
+                        (self.dotted(cls.module, st.value.func) or "") in ("enum.auto", "auto"):
+                    # enum.auto(): the next power of two above the highest member of a Flag, last value + 1 otherwise
+                    ints = [v for _, v in cls.members if isinstance(v, int) and not isinstance(v, bool)]
+                    if kind in ("Flag", "IntFlag"):
+                        val = 1 << (max(ints).bit_length()) if ints and max(ints) > 0 else 1
+                    else:
+                        val = (ints[-1] + 1) if ints else 1
                 cls.members.append((name, val))
 
     # --------------------------------------------------------------- resolve
